@@ -1,7 +1,7 @@
 """Shared driver helpers: harness build, TLC runner, output parsing, verdict/evidence writing."""
 import json, os, re, subprocess, sys, time, shutil, concurrent.futures
 
-ROOT = '/verif'
+ROOT = os.path.dirname(os.path.dirname(os.path.abspath(__file__)))
 WORK = os.path.join(ROOT, 'work')
 SPEC = os.path.join(ROOT, 'spec')
 HARNESS = os.path.join(ROOT, 'harness')
@@ -67,7 +67,7 @@ def nvh(args, timeout=3600, env=None, check=True):
 
 def chardb():
     out = os.path.join(WORK, 'chardb.ndjson')
-    nvh(['chardb', '--out', out])
+    nvh(['chardb', '--out', out, '--universe', os.path.join(ROOT, 'lib', 'universe.txt')])
     return out
 
 
